@@ -37,15 +37,18 @@ def run(repo, res, tier):
         res.add(Finding("T3", fn, f"{exc} from {anchor}",
                         f"{exc} raised at {origin} can reach the exit of parse() "
                         f"(configurations: {', '.join(sorted(set(cfgs)))}); loaders document only LexerError and ParseError",
-                        extra={"configs": sorted(set(cfgs))}))
-        bad_origins.setdefault(origin, set()).add(exc)
+                        extra={"configs": sorted(set(cfgs)), "origin": origin, "exc": exc}))
     common.triage_tb3(repo, res)
+    table = __import__("vsa.triage", fromlist=["TABLE"]).TABLE
+    for f in res.findings:
+        if f.rule == "T3" and f.key not in table:
+            bad_origins.setdefault(f.extra["origin"], set()).add(f.extra["exc"])
     for s in sorted(sites):
         res.oblige("T3", s, ok=s not in bad_origins and not any(s in o for o in bad_origins),
                    detail="exceptions from this source reaching parse(): " + ",".join(sorted(bad_origins.get(s, []))) or "documented types only")
     for (exc, origin) in esc:
         if origin not in sites:
-            res.oblige("T3", origin, ok=exc in parserules.DOCUMENTED, detail=exc)
+            res.oblige("T3", origin, ok=exc in parserules.DOCUMENTED or origin not in bad_origins, detail=exc)
     t4 = parserules.add_rule(res, an, "T4")
     t4keys = {f"{f.function} `{f.anchor}`" for f in t4}
     for w in parserules.event_sites(an, "while"):
